@@ -28,7 +28,7 @@ DOMAIN_DOC = {
 
 def children(tree) -> list:
     k = tree[0]
-    if k in LEAF:
+    if k in LEAF or k == "ConstantSym":
         return []
     if k in NARY:
         return list(tree[1])
@@ -57,6 +57,8 @@ def show(tree) -> str:
         return f'Variable("{tree[1]}")'
     if k == "Constant":
         return f"Constant({tree[1]!r})"
+    if k == "ConstantSym":
+        return f"Constant({tree[2]!r})"
     if k in NARY:
         return f"{k}({', '.join(show(c) for c in tree[1])})"
     if k in BINARY:
